@@ -1,0 +1,14 @@
+//go:build verif
+
+package ttlv
+
+// VerifHook, when set by a verification harness (build tag verif), is called at the instrumented
+// points of the plan caches of the encoder and decoder. It may block: the harness uses the call as a
+// scheduling gate. It is never set in production builds (the file is excluded without the tag).
+var VerifHook func(point string, obj any)
+
+func vp(point string, obj any) {
+	if h := VerifHook; h != nil {
+		h(point, obj)
+	}
+}
